@@ -108,6 +108,11 @@ def _family(rng):
     M3 = ev.InsertAxis(a23, ev.constant(5)) * ev.Transpose(ev.InsertAxis(ev.InsertAxis(A, ev.constant(2)), ev.constant(3)), (1, 2, 0))  # dense 2-axis cluster x inflated vector
     out.append(('Multiply of a dense matrix cluster and an inflated vector', M3))
     out.append(('Multiply dense cluster, transposed', ev.Transpose(M3, (1, 0, 2))))
+    # a factor that bridges two clusters that were disjoint until it arrived: (u_i v_j) a_ij, and the other association orders
+    UV = ev.InsertAxis(v2, ev.constant(3)) * ev.Transpose(ev.InsertAxis(v3, ev.constant(2)), (1, 0))
+    out.append(('Multiply (u_i v_j) a_ij: bridging factor last', UV * a23))
+    out.append(('Multiply a_ij (u_i v_j): bridging factor first', a23 * UV))
+    out.append(('Multiply (u_i a_ij) v_j', (ev.InsertAxis(v2, ev.constant(3)) * a23) * ev.Transpose(ev.InsertAxis(v3, ev.constant(2)), (1, 0))))
     out.append(('Ravel', ev.Ravel(M)))
     out.append(('Ravel of InsertAxis', ev.Ravel(ev.InsertAxis(A, ev.constant(3)))))
     out.append(('Unravel', ev.Unravel(infl(a6, [5, 0, 7, 2, 3, 9], 12), ev.constant(3), ev.constant(4))))
